@@ -891,6 +891,22 @@ static void check_history(const Config &c, const char *subject_name, const std::
       }
     std::sort(accepted_calls.begin(), accepted_calls.end());
     std::sort(consumed_enters.begin(), consumed_enters.end());
+    // for the corollary "never lost when at most max_queue_size records are produced between two completed
+    // flushes": all call stamps, all return stamps, and the true flushes in order of their return
+    std::vector<uint64_t> all_calls, all_rets;
+    for (auto &kv : recs)
+    {
+      all_calls.push_back(kv.second.call);
+      if (kv.second.ret)
+        all_rets.push_back(kv.second.ret);
+    }
+    std::sort(all_calls.begin(), all_calls.end());
+    std::sort(all_rets.begin(), all_rets.end());
+    std::vector<std::pair<uint64_t, uint64_t>> true_flushes;  // (ret, call)
+    for (auto &f : flushes)
+      if (f.ret != ~0ull && f.result && f.ret < first_shutdown_call)
+        true_flushes.emplace_back(f.ret, f.call);
+    std::sort(true_flushes.begin(), true_flushes.end());
     for (auto &kv : recs)
     {
       const Rec &rc = kv.second;
@@ -912,6 +928,34 @@ static void check_history(const Config &c, const char *subject_name, const std::
       uint64_t C = static_cast<uint64_t>(std::lower_bound(consumed_enters.begin(), consumed_enters.end(), rc.call) -
                                          consumed_enters.begin());
       ++st.drops;
+      // Corollary: take the latest ForceFlush that returned true before this record was produced.  Everything
+      // that had returned before that flush BEGAN is exported (flush completeness), so at most the records that
+      // had not, and that started before this one finished, can share the queue with it.  If those are at most
+      // max_queue_size (this record included) the queue cannot have been full.
+      {
+        auto it = std::lower_bound(true_flushes.begin(), true_flushes.end(), std::make_pair(rc.call, uint64_t(0)));
+        if (it != true_flushes.begin())
+        {
+          uint64_t fcall = 0;
+          for (auto jt = true_flushes.begin(); jt != it; ++jt)
+            fcall = std::max(fcall, jt->second);  // the flush that began last among those completed before rc.call
+          uint64_t started = static_cast<uint64_t>(std::lower_bound(all_calls.begin(), all_calls.end(), rc.ret) -
+                                                   all_calls.begin());
+          uint64_t done_before_flush = static_cast<uint64_t>(std::upper_bound(all_rets.begin(), all_rets.end(), fcall) -
+                                                             all_rets.begin());
+          uint64_t N = started - done_before_flush;
+          R.count("drops_judged_by_completed_flush_corollary");
+          if (N <= c.queue && !(A - C < c.queue))
+          {
+            lost_with_room.push_back(rc.ret);
+            viol("C01", "lost-with-room", subj + ":after-completed-flush",
+                 "record " + key_of(kv.first.first, kv.first.second) + " never exported although only " +
+                     std::to_string(N) + " <= max_queue_size " + std::to_string(c.queue) +
+                     " records were produced since a ForceFlush that returned true began (t=" + std::to_string(fcall) +
+                     "); " + c.describe());
+          }
+        }
+      }
       if (A - C < c.queue)
         lost_with_room.push_back(rc.ret);
       if (A - C < c.queue)
